@@ -40,6 +40,9 @@ func (fullGraph *FullGraph) MergeHeaderFile(merge func(string) string) *FullGrap
 	}
 	for key := range fullGraph.RelationList {
 		relation := fullGraph.RelationList[key]
+		if _, ok := fullGraph.NodeList[relation.To]; !ok {
+			continue
+		}
 		mergedFrom := merge(relation.From)
 		mergedTo := merge(relation.To)
 		if mergedFrom == mergedTo {
